@@ -144,8 +144,14 @@ fn message_type_of(code: u8) -> MessageType {
 }
 
 /// Peak-memory bound of the statement: a constant plus a linear function of the input length.
+/// Constant for decoding: at most eight live moment buffers of 65535 gates x 31 bytes (one being
+/// replaced) plus the pointer table, rounded up to 24 MiB.  Radial conversion additionally holds
+/// two more copies of the seven moments (borrowing result + consumed clone): 40 MiB.
 fn mem_bound(n: usize) -> usize {
-    (64 * MIB) as usize + 64 * n
+    (24 * MIB) as usize + 64 * n
+}
+fn mem_bound_radial(n: usize) -> usize {
+    (40 * MIB) as usize + 64 * n
 }
 
 /// Run one entry point on one input under all monitors.
@@ -260,7 +266,7 @@ pub fn run_op(obs: &mut Obs, op: Op, input: &[u8], family: &str) {
             ),
             Ok(_) => {}
         }
-        if peak > mem_bound(input.len()) {
+        if peak > mem_bound_radial(input.len()) {
             obs.violation(
                 "radial conversion peak memory above bound",
                 format!("peak {}", peak),
@@ -503,6 +509,41 @@ fn extreme31(rng: &mut Rng) -> Vec<u8> {
     enc::msg31_bytes(&mh, &body)
 }
 
+/// Thousands of pointers that ALL address valid moment blocks (the same few blocks over and
+/// over).  A decoder may read each of them, but what it keeps alive must not grow with the
+/// pointer count.  Sizes are chosen so that the plain walk stays below the work cap.
+fn repeated_pointers31(rng: &mut Rng) -> Vec<u8> {
+    let mh = MsgHeader::realistic(rng, 31);
+    let count: usize = *rng.pick(&[600usize, 4_000, 20_000, 65_535]);
+    let mut body = vec![0u8; 32 + 4 * count];
+    body[0..4].copy_from_slice(b"KDMX");
+    body[8..10].copy_from_slice(&rng.range(2, 30_000).to_be_bytes()[6..8]);
+    body[30..32].copy_from_slice(&(count as u16).to_be_bytes());
+    // per-block byte budget so that count * block <= ~44 MiB of reads
+    let budget = ((44 * MIB as usize) / count).saturating_sub(28).clamp(1, 60_000);
+    let nblocks = rng.urange(1, 4);
+    let mut offsets = Vec::new();
+    for _ in 0..nblocks {
+        let word: u8 = *rng.pick(&[8u8, 16, 32, 64, 248]);
+        let gates = (budget / (word as usize / 8)).min(65_535).max(1) as u16;
+        let mut blk = vec![0u8; 28];
+        blk[0] = b'D';
+        blk[1..4].copy_from_slice(*rng.pick(&enc::MOMENT_NAMES));
+        blk[8..10].copy_from_slice(&gates.to_be_bytes());
+        blk[18] = rng.below(4) as u8;
+        blk[19] = word;
+        blk[20..24].copy_from_slice(&2.0f32.to_bits().to_be_bytes());
+        offsets.push(body.len() as u32);
+        body.extend_from_slice(&blk);
+        body.extend_from_slice(&rng.bytes(gates as usize * (word as usize / 8)));
+    }
+    for i in 0..count {
+        let p = *rng.pick(&offsets);
+        body[32 + 4 * i..32 + 4 * i + 4].copy_from_slice(&p.to_be_bytes());
+    }
+    enc::msg31_bytes(&mh, &body)
+}
+
 fn extreme_vcp(rng: &mut Rng) -> Vec<u8> {
     let n = rng.urange(0, 51);
     let mut v = gen_vcp(rng, n);
@@ -554,6 +595,9 @@ fn extreme_clutter(rng: &mut Rng) -> Vec<u8> {
 }
 
 pub fn gen_input(rng: &mut Rng) -> (Vec<u8>, &'static str) {
+    if rng.chance(1, 40) {
+        return (repeated_pointers31(rng), "repeated-pointers-type31");
+    }
     match rng.below(10) {
         0 => {
             let s = valid_stream(rng);
